@@ -25,6 +25,11 @@ fn check_releases(cx: &mut Ctx, eng: &mut Engine, what: &str, container: &str, m
         let c = eng.case(json!({"what":what,"container":container,"address":format!("{:#x}", addr),"size":size,"nonzero_bytes":nz,"releases_with_residue":eng.releases_nonzero.len(),"releases_observed":seen}));
         cx.violation(&format!("C15|{}|released_with_nonzero_bytes|{}", container, cls), c);
     }
+    if !eng.releases_beyond.is_empty() {
+        let (addr, size, b) = eng.releases_beyond[0];
+        let c = eng.case(json!({"what":what,"container":container,"address":format!("{:#x}", addr),"released_size":size,"secret_pattern_bytes_past_released_size":b}));
+        cx.violation(&format!("C15|{}|secret_bytes_left_past_released_size", container), c);
+    }
     if must_release && seen == 0 {
         cx.cover("history_without_release(inconclusive)", container);
     } else if seen > 0 {
@@ -70,9 +75,9 @@ fn run_seq(cx: &mut Ctx, eng: &mut Engine, resizable: bool, len: usize, ctor: &s
 /// histories over the unprotected containers and the object types that embed protected ones
 fn plain_histories(cx: &mut Ctx, eng: &mut Engine, idx: &mut u64) {
     let page = eng.page;
-    let lens = [1usize, 16, 100, page - 1, page, page + 1, 2 * page + 7, 5 * page];
+    let lens = [1usize, 16, 64, 100, 3000, page - 1, page, page + 1, 2 * page + 7, 3 * page + 100, 5 * page];
     for &len in &lens {
-        for variant in 0..8usize {
+        for variant in 0..10usize {
             *idx += 1;
             if !cx.mine(*idx) {
                 continue;
@@ -85,6 +90,7 @@ fn plain_histories(cx: &mut Ctx, eng: &mut Engine, idx: &mut u64) {
                 let mut h = HeapBytes::default();
                 h.resize(len, 0xA5);
                 h.as_mut_slice().copy_from_slice(&pat);
+                watch(h.as_slice().as_ptr() as usize, len, variant as u8 + 9);
                 match variant {
                     0 => {}                                   // create, fill, drop
                     1 => h.resize(len + 3 * page, 0xA5),      // grow across a reallocation
@@ -105,6 +111,20 @@ fn plain_histories(cx: &mut Ctx, eng: &mut Engine, idx: &mut u64) {
                             h.resize(len + k * 777, 0xC3);    // repeated growth
                         }
                     }
+                    8 => {
+                        h.resize((len / 3).max(1), 0);        // shrink (possibly within the same page count) ...
+                        let l = h.mlock();                    // ... then lock and release
+                        drop(l);
+                        return;
+                    }
+                    9 => {
+                        h.resize(len / 2 + 1, 0);
+                        h.resize(len + 5, 0x77);              // shrink, regrow within capacity, lock, unlock, drop
+                        if let Ok(l) = h.mlock() {
+                            let _ = l.munlock();
+                        }
+                        return;
+                    }
                     _ => {
                         let l = h.mlock();                    // lock, unlock, protect, drop
                         if let Ok(l) = l {
@@ -118,7 +138,7 @@ fn plain_histories(cx: &mut Ctx, eng: &mut Engine, idx: &mut u64) {
                 drop(h);
             });
             let _ = r;
-            cx.cover("plain_history", &format!("HeapBytes:{}", ["drop", "grow", "shrink", "grow_then_shrink", "clone", "truncate", "repeated_growth", "lock_unlock_noaccess"][variant]));
+            cx.cover("plain_history", &format!("HeapBytes:{}", ["drop", "grow", "shrink", "grow_then_shrink", "clone", "truncate", "repeated_growth", "lock_unlock_noaccess", "shrink_then_lock", "shrink_regrow_lock_unlock"][variant]));
             check_releases(cx, eng, "HeapBytes history", "HeapBytes", true);
         }
     }
@@ -215,6 +235,18 @@ fn plain_histories(cx: &mut Ctx, eng: &mut Engine, idx: &mut u64) {
 }
 
 pub fn run(cx: &mut Ctx) {
+    if cx.opt("mlockall").is_some() {
+        // a process that locks all of its current and future memory: wiping strategies that rely on giving pages
+        // back to the kernel (madvise) silently stop working on locked pages
+        let r = unsafe { libc::mlockall(libc::MCL_CURRENT | libc::MCL_FUTURE) };
+        if r != 0 {
+            cx.violation("HARNESS|C15|mlockall_refused", json!({"errno":std::io::Error::last_os_error().to_string()}));
+            return;
+        }
+        cx.cover("process_mode", "mlockall(MCL_CURRENT|MCL_FUTURE)");
+    } else {
+        cx.cover("process_mode", "default");
+    }
     let mut eng = Engine::new("C15", false, false);
     let page = eng.page;
     let depth = cx.tier.pick(2usize, 3, 5);
